@@ -43,11 +43,26 @@ fn strategy(tier: Tier) -> BoxedStrategy<SummaryCase> {
         if !spouse { let mut r = mk(2019, 4, 1, Act::Buy, 7, &pr); r.af = "Spouse".into(); rows.insert(2, r); }
         LedgerCase { rows, opening: vec![], tags: vec!["year-netting-to-zero".into()] }
     });
+    // an affiliate that starts years after the history does, next to one with a net loss in the year before (annual summaries date their
+    // generated rows by year)
+    let late = (0usize..3, 0usize..3, any::<bool>(), any::<bool>(), 0usize..3).prop_map(|(gi, li, swap, more, yi)| {
+        use crate::gen::{ymd, HRow};
+        let (gap, loss_px) = ([1i32, 2, 3][gi], ["8", "7.5", "9.99"][li]);
+        let (early, late_af) = if swap { ("Spouse", "") } else { ("", "Spouse") };
+        let y0 = [2012i32, 2016, 2018][yi];
+        let mk = |af: &str, y: i32, m: u8, d: u8, act: Act, sh: i64, px: &str| { let dt = ymd(y, m, d); let mut r = HRow::new("FOO", dt, dt, act); r.shares = sh.to_string(); r.price = px.to_string(); r.af = af.to_string(); r };
+        let yl = y0 + gap; // the late starter's first year; the early holder's loss falls in the year before
+        let mut rows = vec![mk(early, y0, 3, 5, Act::Buy, 100, "10"), mk(early, yl - 1, 6, 3, Act::Sell, 20, loss_px), mk(late_af, yl, 2, 10, Act::Buy, 50, "9")];
+        if more { rows.push(mk(early, yl, 5, 4, Act::Sell, 10, "12")); }
+        rows.push(mk(late_af, yl + 1, 3, 1, Act::Sell, 10, "11"));
+        rows.push(mk(early, yl + 1, 4, 1, Act::Sell, 10, "12"));
+        LedgerCase { rows, opening: vec![], tags: vec!["affiliate-starting-years-later".into()] }
+    });
     // scenarios some of whose sales carry a declared superficial loss (also forced ones, and the forced 0 = "not superficial")
     let mut dp = super::c02::scen_params();
     dp.max_events = 6;
     let declared = super::c02::declared_strategy_for(dp);
-    (prop_oneof![4 => ledger, 4 => scen, 1 => cancel.boxed(), 2 => declared], any::<u16>(), 0usize..12, any::<bool>()).prop_map(|(ledger, ix, off, annual)| {
+    (prop_oneof![4 => ledger, 4 => scen, 1 => cancel.boxed(), 2 => declared, 1 => late.boxed()], any::<u16>(), 0usize..12, any::<bool>()).prop_map(|(ledger, ix, off, annual)| {
         let mut dates: Vec<Date> = ledger.rows.iter().map(|r| r.sd).collect(); dates.sort(); dates.dedup();
         let base = if dates.is_empty() { crate::gen::ymd(2020, 1, 1) } else { dates[(ix as usize * dates.len()) >> 16] };
         let cut = base + Duration::days([0i64, -1, 1, 29, 30, 31, -29, -30, -31, 5, 400, -400][off]);
@@ -101,7 +116,10 @@ fn check(c: &SummaryCase, obs: &mut Obs) -> Verdict {
     let rerun = match run_deltas(&inputs, &o2) { Ok(r) => r, Err(RunErr::Panic(p)) => return classify_panic(&p, &ctx()), Err(RunErr::Run(e)) => { let sec = l.secs()[0].clone(); return known(&sec, format!("feeding the summary plus the later rows fails as a whole: {e}\n{}", ctx())); } Err(RunErr::BadInit(e)) => return Verdict::Fail(e) };
     let tol = tol9();
     // K3 (root cause, observed directly): a yearly 'gain summary (sell)' row of the summary is itself hit by the superficial-loss rule in the re-run
-    let k3: Vec<String> = rerun.iter().filter(|(_, r)| r.deltas.iter().any(|d| d.tx.memo.ends_with("gain summary (sell)") && d.is_superficial_loss())).map(|(s, _)| s.clone()).collect();
+    // ... by an acquisition that is a row of the history itself (kept verbatim, or settling after the cut): the summary's own generated
+    // purchases are dated a year before its first yearly sale and can never be the cause - if one is, that is a different defect
+    let k3: Vec<String> = rerun.iter().filter(|(_, r)| r.deltas.iter().any(|d| d.tx.memo.ends_with("gain summary (sell)") && d.is_superficial_loss()
+        && r.deltas.iter().any(|b| matches!(b.tx.action_specifics, acb::portfolio::TxActionSpecifics::Buy(_)) && (b.tx.settlement_date - d.tx.settlement_date).whole_days().abs() <= 30 && !b.tx.memo.starts_with("Summary")))).map(|(s, _)| s.clone()).collect();
     let known = |sec: &str, detail: String| -> Verdict {
         if c.annual && k3.iter().any(|s| s == sec) { return known_or_fail("F-10-K3", detail); }
         let rows: Vec<crate::gen::HRow> = l.sec_rows(sec);
